@@ -78,3 +78,24 @@ Fixpoint strictly_sorted (l : list Q) : bool :=
   | a :: ((b :: _) as r) => Qltb a b && strictly_sorted r
   | _ => true
   end.
+
+(* ------------------------------------------------------------------ round 5: the guards of iterfit around the loop.
+   `if maskwork.sum() < sset.nord: warn; outmask[xsort] = maskwork; return (sset, outmask)`: with FEWER good points than
+   the order no fit is attempted (the coefficients stay zero) and the mask returned is the initial one; with nord or more
+   good points -- also with exactly nord of them -- the loop runs. *)
+Definition ngood (m : list bool) : nat := length (filter (fun b => b) m).
+
+Inductive iter_outcome :=
+| GaveUp (mask : list bool)                  (* too few good points: no fit, mask = (invvar > 0) in the caller's order *)
+| Fitted (c : list Q) (mask : list bool)
+| NoModel.                                   (* a fit of the loop was not uniquely solvable (C09's status path) *)
+
+Definition iterfit_guarded_with (sv : solver) (maxiter : nat) (lower upper : Q) (gb : list Q) (k : nat)
+           (ds : list datum) (perm : list nat) : iter_outcome :=
+  let sorted := apply_perm d0 perm ds in
+  let m0 := initial_mask sorted in
+  if (ngood m0 <? k)%nat then GaveUp (unsort false perm m0)
+  else match iter_loop sv (S maxiter) gb k lower upper sorted m0 with
+       | None => NoModel
+       | Some (c, mw) => Fitted c (unsort false perm mw)
+       end.
